@@ -354,3 +354,62 @@ class RenameThenCreate(Harness):
         if bad:
             return {"observed": bad, "clause": "RENAME leaves nothing under the old name and keeps every message and flag"}
         return None
+
+
+class DigitComponent(Harness):
+    """A CREATE / RENAME that is answered OK leaves every existing mailbox usable (C17; C11 'every mailbox can be selected'):
+    inside an MH folder a sub-folder whose name is all digits is indistinguishable from a message file."""
+
+    scope = "parent mailbox with one appended message; CREATE parent/<digits>, CREATE parent/<digits>/x, RENAME other parent/<digits> (6 names); if answered OK the parent must still SELECT, list its message and accept an APPEND, also after a restart"
+    exhaustive = False
+
+    def inputs(self, tier, seed):
+        for cmd in ("CREATE archive/2025", "CREATE archive/7", "CREATE archive/2025/q1", "RENAME other archive/2025", "RENAME other archive/12/x", "CREATE archive/20x5"):
+            yield {"cmd": cmd}
+
+    def check(self, inp):
+        t = "Subject: kept\r\n\r\nbody\r\n"
+
+        async def cmd(s, text):
+            try:
+                return await s.cmd(text)
+            except Exception as e:  # the handler let an exception escape (the client got BAD, the connection task raised)
+                s.proxy.take()
+                return [f"x BAD (exception escaped the command handler: {type(e).__name__}: {e})"]
+
+        async def usable(s, tag):
+            bad = []
+            sel = await cmd(s, "SELECT archive")
+            if " OK " not in sel[-1]:
+                bad.append(f"{tag}: SELECT archive -> {sel[-1].strip()}")
+            srch = await cmd(s, "UID SEARCH ALL")
+            if uids_of(srch) != [1] and " OK " in sel[-1]:
+                bad.append(f"{tag}: UID SEARCH ALL -> {srch}")
+            return bad
+
+        async def go():
+            async with World({"inbox": 1, "other": 1}) as w:
+                a = w.session("a")
+                await a.cmd("CREATE archive")
+                await a.cmd(f"APPEND archive {{{len(t)}}}\r\n{t}")
+                r = await cmd(a, inp["cmd"])
+                if " OK " not in r[-1]:
+                    return (await usable(a, "after the refused command")) or None
+                bad = await usable(a, "after " + inp["cmd"])
+                ap = await cmd(a, f"APPEND archive {{{len(t)}}}\r\n{t}")
+                if " OK " not in ap[-1]:
+                    bad.append(f"APPEND archive -> {ap[-1].strip()}")
+                try:
+                    await w.restart(find_folders=True)
+                    b = w.session("b")
+                    sel = await cmd(b, "SELECT archive")
+                    if " OK " not in sel[-1]:
+                        bad.append(f"after restart: SELECT archive -> {sel[-1].strip()}")
+                except Exception as e:  # start-up itself failed
+                    bad.append(f"restart failed: {type(e).__name__}: {e}")
+                return bad or None
+
+        bad = run(go(), timeout=90)
+        if bad:
+            return {"observed": bad, "clause": "a namespace command answered OK leaves every existing mailbox selectable and its messages reachable"}
+        return None
